@@ -26,7 +26,7 @@ Requirements for the change:
 - It must be the kind of mistake a developer could plausibly make (a slip while refactoring, optimising or porting), NOT something ordinary use would expose at once: every existing test must still pass. Prefer a change that needs something specific to manifest. {hint}
 - One to ten changed lines. No new public API, no test edits, no cfg tricks, no changes to Cargo.toml.
 - The crate must compile and `CARGO_NET_OFFLINE=true cargo test --offline` must still pass with your change.
-- Provide a demonstration: a new integration test file `tests/seed_demo.rs` that FAILS with your change applied and PASSES on the original tree (check with `git stash` / `git stash pop` or by reverting your edit), using only the public API (see src/prelude.rs, src/lib.rs, examples/ and tests/ for how it is used). Verify both directions yourself.
+- Provide a demonstration: a new integration test file `tests/seed_demo.rs` that FAILS with your change applied and PASSES on the original tree (check by saving `git diff -- src > /tmp/my.patch`-style into your seed/ directory and using `git apply -R` / `git apply` on it; do NOT use `git stash`: the stash is shared between worktrees), using only the public API (see src/prelude.rs, src/lib.rs, examples/ and tests/ for how it is used). Verify both directions yourself.
 
 Deliverables (write these files, they are what I will collect):
 - {wt}/seed/patch.diff  : output of `git diff -- src` for your change (source change only, not the demo)
